@@ -151,6 +151,10 @@ def run(rep, tier):
                 rep.violation('check_if_circuit_has_unsigned_stabilizer_flows', 'wrong-result', {'circuit': text, 'flow': flow_text(f, n)},
                               'unsigned flow check differs from exact simulation on the Choi state', uv, bool(u_impl))
         rep.count(('c14', text), nontrivial=any(v[0] for v in verdicts) and any(not v[1] for v in verdicts))
+        # flows whose Pauli strings are shorter or longer than the circuit (qubits past the circuit are idle: they carry their
+        # Pauli through unchanged), input and output of different lengths
+        if rng.random() < 0.6:
+            extended_flows(rep, svh, rng, text, n, nm, ir, [f for (t, f), v in zip(cands, verdicts) if v[0]], h_id, cx_id)
         # completeness: every flow of the specification's final Choi group lies in the span of the returned generators
         spec_flows = choi_flows(sg, sp['rec'], n, nm)
         gvecs = [flow_vec(f, n, nm) for t, f in gens]
@@ -188,6 +192,73 @@ def has_repeated_mr(body, names):
             return True
         prev = (nm, tuple(i.args), [t.val for t in i.targets]) if nm in ('MR', 'MRX', 'MRY') else None
     return False
+
+
+def raw_flow_text(f):
+    """like flow_text, but the strings are printed with the lengths they have"""
+    sign, pin, pout, recs = f
+    a = pin if pin.strip('_I') else '1'
+    b = pout if pout.strip('_I') else '1'
+    terms = ([b] if b != '1' or not recs else []) + ['rec[%d]' % r for r in recs]
+    if sign and a != '1':
+        a = '-' + a
+    elif sign:
+        terms[0] = '-' + terms[0]
+    return a + ' -> ' + ' xor '.join(terms)
+
+
+def extended_flows(rep, svh, rng, text, n, nm, ir, true_flows, h_id, cx_id):
+    EXTRA = 3
+    N = n + EXTRA
+    base = list(true_flows) or [(0, '_' * n, '_' * n, [])]
+    cands = []
+    for _ in range(6):
+        sign, pin, pout, recs = rng.choice(base)
+        pin, pout = pad(pin, n), pad(pout, n)
+        kind = rng.choice(['both', 'out_only', 'in_only', 'short', 'both2', 'out_far'])
+        ext = ''.join(rng.choice('XYZ') if rng.random() < 0.7 else '_' for _ in range(rng.choice([1, 2, 3])))
+        if not ext.strip('_'):
+            ext = ext[:-1] + rng.choice('XYZ')
+        if kind == 'both':
+            pin, pout = pin + ext, pout + ext
+        elif kind == 'both2':
+            pin, pout = pin + ext, pout + ext[:-1] + rng.choice('XYZ_')
+        elif kind == 'out_only':
+            pout = pout + ext
+        elif kind == 'out_far':
+            pout = pout + '_' * rng.choice([0, 1, 2]) + rng.choice('ZZX')
+            pout = pout[:N]
+        elif kind == 'in_only':
+            pin = pin + ext
+        else:
+            pin, pout = pin.rstrip('_'), pout.rstrip('_')
+        cands.append((sign, pin, pout, list(recs)))
+    choi = ['U1 %d %d' % (h_id, N + q) for q in range(N)] + ['U2 %d %d %d' % (cx_id, N + q, q) for q in range(N)]
+    probes = ['PROBE ' + ' '.join(flow_probe(pad(f[1], N), pad(f[2], N), N)) for f in cands]
+    so = core.run_svm('spec %d 0 ; %s\n' % (2 * N, ' ; '.join(choi + list(ir.lines) + probes)), timeout=600)[0]
+    if so.startswith('EXN'):
+        return
+    sp = stimtext.parse_spec_out(so)
+    verdicts = [spec_flow_holds(f, pf, sp['rec'], nm) for f, pf in zip(cands, sp['probe'][-len(cands):])]
+    payload = text + '\n' + '\n'.join('@F ' + raw_flow_text(f) for f in cands)
+    try:
+        ho = svh.request('hasflow', [rng.randrange(1 << 30), 256], payload)
+    except core.Crash as e:
+        rep.violation('has_flow', 'crash', payload, str(e) + e.stderr[-800:])
+        return
+    if ho and ho[-1].startswith('ERR'):
+        rep.violation('has_flow', 'reject-valid', payload, ho[-1][:300])
+        return
+    for k, (f, (sv, uv)) in enumerate(zip(cands, verdicts)):
+        s_impl, u_impl = [int(x) for x in ho[k].split(' ')[1:]]
+        inp = {'circuit': text, 'flow': raw_flow_text(f)}
+        if bool(s_impl) != sv:
+            rep.violation('sample_if_circuit_has_stabilizer_flows', 'wrong-result', inp,
+                          'signed flow check (Pauli strings longer / shorter than the circuit) differs from exact simulation on the Choi state', sv, bool(s_impl))
+        if bool(u_impl) != uv:
+            rep.violation('check_if_circuit_has_unsigned_stabilizer_flows', 'wrong-result', inp,
+                          'unsigned flow check (Pauli strings longer / shorter than the circuit) differs from exact simulation on the Choi state', uv, bool(u_impl))
+    rep.count(('c14-ext', text, tuple(raw_flow_text(f) for f in cands)), nontrivial=any(v[0] for v in verdicts) and any(not v[0] for v in verdicts))
 
 
 def pad(s, n):
